@@ -1,13 +1,16 @@
 (** Correspondence cases for C03: every sampler on binary64, the random source being the executable model of
     `alea` (Base/Rng.v) started from the same seed, libm answered from the table recorded from the real run. *)
 From Coq Require Import List Floats ZArith NArith Bool.
-From Compute Require Export Base.Ops Base.ListMat Base.Rng Model.MatMul Model.Samplers.
+From Compute Require Export Base.Ops Base.ListMat Base.Rng Model.MatMul Model.Samplers Model.MVNNew Model.MVNSample.
 Import ListNotations.
 
 Inductive case :=
 | CDraws (t : libm_table) (d : dist float) (seed : N) (k : nat) (e : outcome (list float))
 | CMatrix (t : libm_table) (d : dist float) (seed : N) (r c : nat) (e : outcome (list float))
 | CMvn (t : libm_table) (mu L : list float) (dim : nat) (seed : N) (n : nat) (e : outcome (list float))
+(** END TO END: [MVN::new(mu, Matrix::new(cov, r, c))] with the Cholesky factor computed by C11's model (nothing
+    recorded but libm), then one [sample()] and one [sample_n(n)] on the same object *)
+| CMvnE (t : libm_table) (r c : nat) (cov mu : list float) (seed : N) (n : nat) (e : outcome (list float))
 | CLnGamma (t : libm_table) (x : float) (e : outcome (list float)).
 
 (** loop budgets: far above anything a terminating run needs *)
@@ -40,5 +43,14 @@ Definition check (c : case) : bool :=
            res_bind (mvn_sample O src FUEL mu L (set_seed seed)) (fun p1 =>
            res_bind (mvn_sample_n O src FUEL mu L n (snd p1)) (fun p2 => Ok ((fst p1, fst p2), snd p2)))
          else Fail) e
+  | CMvnE t r c cov mu seed n e =>
+      let O := FO t in let src := alea_source O RANGE_FUEL in
+      res_eqb (fun p => fst p ++ mat_out (snd p))
+        (match mvn_new O mu {| nr := r; nc := c; dat := cov |} with
+         | Some d =>
+             res_bind (mvn_obj_sample O src FUEL d (set_seed seed)) (fun p1 =>
+             res_bind (mvn_obj_sample_n O src FUEL d n (snd p1)) (fun p2 => Ok ((fst p1, fst p2), snd p2)))
+         | None => Fail
+         end) e
   | CLnGamma t x e => fout_eqb (Val [ln_gamma (FO t) x]) e
   end.
